@@ -14,7 +14,14 @@ use std::collections::BTreeMap;
 /// quantifier covers the operations of the history that led to it.
 pub fn owners(d: &Disagreement) -> Vec<&'static str> {
     match d.kind {
-        Kind::Mode => vec!["C06"],
+        Kind::Mode => {
+            // the mode after a reset is C10's business as well ("in the current mode")
+            if d.at.is_reset() {
+                vec!["C06", "C10"]
+            } else {
+                vec!["C06"]
+            }
+        }
         Kind::Position | Kind::TokenPosition | Kind::QueryImpure => vec!["C09"],
         Kind::Peek | Kind::PeekImpure => {
             if d.history_has_reset() {
@@ -37,7 +44,7 @@ pub fn owners(d: &Disagreement) -> Vec<&'static str> {
         }
         Kind::Panic => match d.at {
             Op::Peek(_) => vec!["C11", "C07"],
-            Op::AdvPeek(_) | Op::SetOffset(_) => vec!["C10", "C07"],
+            Op::AdvPeek(_) | Op::SetOffset(_) | Op::WithOffset(_) => vec!["C10", "C07"],
             Op::SetMode(_) => vec!["C06", "C07"],
             Op::Next => {
                 if d.history_has_reset() {
@@ -159,7 +166,7 @@ pub fn families(prop: &str, tier: Tier) -> Vec<Family> {
     match prop {
         "C06" => {
             let lists = pattern_lists();
-            let ops = OpSet { next: true, peeks: vec![1, 2], adv: vec![], offsets: Offsets::None, set_modes: true, with_positions: false, positions: false };
+            let ops = OpSet { next: true, peeks: vec![1, 2], adv: vec![], offsets: Offsets::None, set_modes: true, with_positions: false, positions: false, with_offset_ops: false };
             f.push(Family {
                 stateless_depth: 0,
                 name: "mode-graphs-2".into(),
@@ -179,7 +186,7 @@ pub fn families(prop: &str, tier: Tier) -> Vec<Family> {
                 name: "gaps".into(),
                 cfgs: gap_cfgs(),
                 inputs: inputs(&['a', 'b', 'x', '\n'], if q { 4 } else { 5 }),
-                ops: OpSet { next: true, peeks: vec![], adv: vec![], offsets: Offsets::None, set_modes: true, with_positions: false, positions: false },
+                ops: OpSet { next: true, peeks: vec![], adv: vec![], offsets: Offsets::None, set_modes: true, with_positions: false, positions: false, with_offset_ops: false },
                 describe: "pattern sets with characters nothing matches; next/set_mode only".into(),
             });
         }
@@ -190,7 +197,7 @@ pub fn families(prop: &str, tier: Tier) -> Vec<Family> {
                 name: "with_positions".into(),
                 cfgs: newline_cfgs(),
                 inputs: inputs(&['a', 'b', '\n', 'é'], l),
-                ops: OpSet { next: true, peeks: vec![], adv: vec![], offsets: Offsets::Scanned, set_modes: true, with_positions: true, positions: true },
+                ops: OpSet { next: true, peeks: vec![], adv: vec![], offsets: Offsets::Scanned, set_modes: true, with_positions: true, positions: true, with_offset_ops: false },
                 describe: "WithPositions<FindMatches>: next / set_offset(every already scanned boundary) / set_mode; position(o) for every o <= contiguously scanned prefix in every state".into(),
             });
             f.push(Family {
@@ -198,19 +205,19 @@ pub fn families(prop: &str, tier: Tier) -> Vec<Family> {
                 name: "bare+peek".into(),
                 cfgs: newline_cfgs(),
                 inputs: inputs(&['a', 'b', '\n', 'é'], if q { 3 } else { 5 }),
-                ops: OpSet { next: true, peeks: vec![2], adv: vec![0, 1], offsets: Offsets::Scanned, set_modes: true, with_positions: false, positions: true },
+                ops: OpSet { next: true, peeks: vec![2], adv: vec![0, 1], offsets: Offsets::Scanned, set_modes: true, with_positions: false, positions: true, with_offset_ops: false },
                 describe: "bare FindMatches: adds peek_n(2) and advance_to(end of peeked match)".into(),
             });
         }
         "C10" => {
-            let ops = OpSet { next: true, peeks: vec![2], adv: vec![0, 1], offsets: Offsets::All, set_modes: true, with_positions: false, positions: false };
+            let ops = OpSet { next: true, peeks: vec![2], adv: vec![0, 1], offsets: Offsets::All, set_modes: true, with_positions: false, positions: false, with_offset_ops: true };
             let lists = pattern_lists();
             f.push(Family { stateless_depth: 0, name: "mode-graphs-2 (subset)".into(), cfgs: mode_graphs(2, &lists[1..4], if q { 13 } else { 3 }), inputs: inputs(&['a', 'b', 'x'], if q { 3 } else { 4 }), ops: ops.clone(), describe: "2 modes x 3 pattern lists x every 13th (thorough: 3rd) of the 729 transition tables".into() });
             f.push(Family { stateless_depth: 0, name: "lookahead modes".into(), cfgs: lookahead_mode_cfgs(), inputs: inputs(&['a', 'b', 'x'], if q { 4 } else { 5 }), ops: ops.clone(), describe: "modes with positive/negative lookaheads and transitions".into() });
             f.push(Family { stateless_depth: 0, name: "multibyte+newline".into(), cfgs: newline_cfgs(), inputs: inputs(&['a', 'b', '\n', 'é'], if q { 3 } else { 4 }), ops, describe: "newline/multi-byte configurations of C09".into() });
         }
         "C11" => {
-            let ops = OpSet { next: true, peeks: vec![0, 1, 2, usize::MAX, usize::MAX - 1], adv: vec![], offsets: Offsets::None, set_modes: true, with_positions: false, positions: false };
+            let ops = OpSet { next: true, peeks: vec![0, 1, 2, usize::MAX, usize::MAX - 1], adv: vec![], offsets: Offsets::None, set_modes: true, with_positions: false, positions: false, with_offset_ops: false };
             let lists = pattern_lists();
             f.push(Family { stateless_depth: 0, name: "mode-graphs-2 (subset)".into(), cfgs: mode_graphs(2, &lists, if q { 7 } else { 1 }), inputs: inputs(&['a', 'b', 'x'], if q { 3 } else { 4 }), ops: ops.clone(), describe: "2 modes x 6 pattern lists x every 7th (thorough: every) transition table".into() });
             f.push(Family { stateless_depth: 0, name: "gaps".into(), cfgs: gap_cfgs(), inputs: inputs(&['a', 'b', 'x', '\n'], if q { 4 } else { 5 }), ops: ops.clone(), describe: "pattern sets with characters nothing matches".into() });
